@@ -160,8 +160,24 @@ def _run_one(mod, case):
         res = mod.check_case(case)
     except HarnessError:
         raise
-    except Exception:
-        # an exception escaping check_case is a harness bug, not a verdict
+    except Exception as e:
+        # Where did it come from?  An exception raised inside the library at
+        # a step the harness expects to succeed (it does on a correct tree)
+        # is a verdict about the library; anything else is a harness bug.
+        tb = traceback.extract_tb(e.__traceback__)
+        lib = [f for f in tb if f.filename.startswith("/repo/")]
+        if lib and tb[-1].filename.startswith(("/repo/", "/venv/", "/root/")):
+            where = lib[-1].name
+            return {
+                "nontrivial": False, "outcome": "unexpected-exception",
+                "violations": [(
+                    "%s|unexpected-exception:%s@%s" % (
+                        mod.ID, type(e).__name__, where),
+                    "a step of the scenario that succeeds on a correct tree "
+                    "raised %r in %s (%s:%d)" % (
+                        e, where, os.path.basename(lib[-1].filename),
+                        lib[-1].lineno))],
+            }
         raise HarnessError(
             "check_case crashed on %r\n%s" % (case, traceback.format_exc())
         )
